@@ -176,6 +176,15 @@ def argmaxE : List Int → Except Err Int
   | [] => .error (.valueError "attempt to get argmax of an empty sequence")
   | x :: xs => .ok (argBestFrom (fun a b => decide (a > b)) xs 1 x 0 : Nat)
 
+/-- `a in (c1, c2, …)` for an ARRAY `a` and a non-empty tuple of integer literals.  Python evaluates `bool(c1 == a) or
+    bool(c2 == a) or …`: an array of exactly one element is compared as that element; the truth value of an array of any other
+    length (empty included) is a ValueError — interpreted numpy and compiled numba alike (checked on the real
+    `numeric_bool_transform`, both modes) -/
+def arrInTupleE (a : List Int) (cs : List Int) : Except Err Bool :=
+  match a with
+  | [x] => .ok (cs.any (fun c => c == x))
+  | _ => .error (.valueError "The truth value of an array with other than one element is ambiguous")
+
 /-! ### loops -/
 
 /-- `for k in range(lo, lo + n)`: `body k s`, stopping early when `stop` holds after an iteration (`break`) -/
@@ -234,6 +243,7 @@ inductive Val where
   | barr (a : List Bool)
   | arr2 (a : List (List Int))
   | tup (vs : List Val)
+  | str (s : String)
   deriving Repr, Inhabited
 
 def Val.asInt? : Val → Option Int
@@ -250,6 +260,9 @@ def Val.asBArr? : Val → Option (List Bool)
   | _ => Option.none
 def Val.asArr2? : Val → Option (List (List Int))
   | .arr2 a => some a
+  | _ => Option.none
+def Val.asStr? : Val → Option String
+  | .str s => some s
   | _ => Option.none
 def Val.asOptInt? : Val → Option (Option Int)
   | .int i => some (some i)
